@@ -11,8 +11,8 @@
                     closed, equal committed contents whose root is the root of those contents
    guard_free     : no operation of the history lies in a known-finding class (ModelGuards.v) *)
 From Common Require Import Bytes.
-From C08 Require Import ModelMap Model ModelSpec ModelGuards ModelCheck ProofsTx ProofsMain ProofsFull ProofsCommit
-     ProofsWitness ProofsCheck.
+From C08 Require Import ModelMap Model ModelSpec ModelGuards ModelCheck ModelHeap ProofsTx ProofsMain ProofsFull
+     ProofsCommit ProofsWitness ProofsCheck ProofsHeap.
 Local Open Scope N_scope.
 
 (* For every history of runtime storage operations on main and child storage (get, set, delete,
@@ -152,3 +152,29 @@ Theorem C08_check_complete : forall ops, guard_free cfg_fixed ops = true ->
   agrees_b (view_of (run cfg_fixed ops ts_init)) ops = true.
 Proof. exact agrees_b_model. Qed.
 Print Assumptions C08_check_complete.
+
+(* The backing store of the model keeps child tries as independent maps.  The in-memory trie keeps
+   them in a Go map keyed by ROOT HASH (child tries with equal contents are one entry, one object)
+   and the main trie holds a root hash per child name: ModelHeap.v.  With the copy-on-shared-root
+   rule of fix C08-6 this store refines independent child maps: for every history of
+   PutIntoChild / ClearFromChild / DeleteChild / GetFromChild (the only operations through which
+   Model.step and Model.apply_diff touch child tries) it gives the same answers and the same
+   registered contents as bk_put_into_child / bk_clear_from_child / bk_delete_child / bk_get_child,
+   never panics, and every registered root has its entry in childTries. *)
+Theorem C08_childtries_refine : forall ops,
+  fst (hrun true ops hs_empty) = fst (brun ops bk_empty) /\
+  hs_reg (snd (hrun true ops hs_empty)) = bk_children (snd (brun ops bk_empty)) /\
+  (forall name h, om_get name (hs_reg (snd (hrun true ops hs_empty))) = Some h ->
+                  In h (hs_present (snd (hrun true ops hs_empty)))).
+Proof. exact heap_refines. Qed.
+Print Assumptions C08_childtries_refine.
+
+(* The rule before fix C08-6 (the shared entry is removed when one of the child tries changes)
+   does not: cs:11:22:a1 cs:22:22:a1 cs:11:1122:a1 cg:22:22 leaves the root of child trie 22
+   without entry and the read dereferences nil, where independent maps answer a1. *)
+Theorem C08_pre6_refuted :
+  fst (hrun false w_alias hs_empty) = [HOk; HOk; HOk; HPanic] /\
+  fst (brun w_alias bk_empty) = [HOk; HOk; HOk; HVal (Some hva)] /\
+  hs_lookup (snd (hrun false w_alias hs_empty)) hk22 = LDangling.
+Proof. exact prefix_alias_panics. Qed.
+Print Assumptions C08_pre6_refuted.
